@@ -459,6 +459,18 @@ obj = A()
 f = deco(obj.m)
 keep = [A, obj]
 ''', 'f', 'sigtools'),
+    ('object-with-python-level-delattr', '''
+class Guarded(object):
+    # attribute removal goes through user code: a call from sigtools into code outside it, which may fail
+    # after the first of the two attributes is already gone
+    def __init__(self, fn):
+        functools.update_wrapper(self, fn)
+        self.__signature__ = inspect.signature(inner2)
+    def __delattr__(self, name):
+        object.__delattr__(self, name)
+    def __call__(self, a, *args, **kwargs): return self.__wrapped__(1, *args, **kwargs)
+f = Guarded(inner)
+''', 'f', 'sigtools'),
     ('lru-cache', '''
 @functools.lru_cache()
 def f(a, *args, **kwargs): return 1
